@@ -4,7 +4,7 @@ state; (R): every TLC behaviour (one per edge of the bounded graphs + simulation
 compiled into a Gno program that calls the real gno.land/p/nt/avl/v0 package on the real GnoVM
 (MsgRun on the real gno.land app, package sources read from $VERIF_REPO/examples) and the
 printed replies / tree walks are compared with the spec's predictions."""
-import json, threading
+import json, random, threading
 from concurrent.futures import ThreadPoolExecutor
 import vlib
 
@@ -88,6 +88,26 @@ def require_acts(behs, acts, what):
         raise vlib.Inconclusive("VACUOUS", "%s: no behaviour takes %s" % (what, missing))
 
 
+def tag_counts(behs):
+    """How often each rebalancing situation of spec BalTags occurs as the last step."""
+    c = {}
+    for b in behs:
+        for t in b[-1].get("tags", []):
+            c[t] = c.get(t, 0) + 1
+    return c
+
+
+def pick_tagged(behs, extra, seed):
+    """All behaviours ending in a Remove whose rebalancing meets a balance-0 heavy child with the
+    grandchild leaning the other way (L0x / R0x: the situations in which a wrong choice between
+    single and double rotation leaves an unbalanced node) plus a seeded sample of the others."""
+    hard = [b for b in behs if any(t.endswith("x") for t in b[-1].get("tags", []))]
+    rest = [b for b in behs if not any(t.endswith("x") for t in b[-1].get("tags", []))]
+    if extra is not None and len(rest) > extra:
+        rest = random.Random(seed).sample(rest, extra)
+    return hard + rest
+
+
 def thin_sim(traces):
     """TLC's simulator evaluates the emitting invariant on every successor of the last state,
     so each run yields one trace per disjunct of SimNext sharing all but the last step. Keep
@@ -120,12 +140,14 @@ def run(ctx):
     if quick:
         runs = [("edges/all-reads 3 keys x 2 values", "OrderedMap_qe.cfg", 3, "edge"),
                 ("edges/mutations 5 keys", "OrderedMap_qm.cfg", 5, "edge"),
+                ("edges/removals rebalancing over a balance-0 child, 9 keys", "OrderedMap_qr.cfg", 9, "edge-tagged"),
                 ("exhaustive 7 keys", "OrderedMap_q.cfg", None, "check"),
                 ("simulation 40 keys x 70 steps", "OrderedMap_sim.cfg", 40, "sim")]
         nsim, tw = 6, 4
     else:
         runs = [("edges/all-reads 4 keys x 2 values", "OrderedMap_te.cfg", 4, "edge"),
                 ("edges/mutations 8 keys", "OrderedMap_tm.cfg", 8, "edge"),
+                ("edges/removals rebalancing over a balance-0 child, 10 keys", "OrderedMap_tr.cfg", 10, "edge-tagged"),
                 ("exhaustive 12 keys", "OrderedMap_t.cfg", None, "check"),
                 ("exhaustive 7 keys x 2 values", "OrderedMap_t2.cfg", None, "check"),
                 ("simulation 40 keys x 70 steps", "OrderedMap_sim.cfg", 40, "sim")]
@@ -135,7 +157,7 @@ def run(ctx):
         label, cfg, nk, mode = run_
         if mode == "sim":
             return vlib.run_tlc(ctx, "MCOrderedMap", cfg, mode="simulate", simulate=nsim, depth=71, tags=("TRACE",), timeout=3000, jvm=JVM)
-        return vlib.run_tlc(ctx, "MCOrderedMap", cfg, tags=("EDGE",) if mode == "edge" else (), workers=tw, timeout=3000, jvm=JVM)
+        return vlib.run_tlc(ctx, "MCOrderedMap", cfg, tags=("EDGE",) if mode.startswith("edge") else (), workers=tw, timeout=3000, jvm=JVM)
     with ThreadPoolExecutor(max_workers=len(runs)) as ex:
         results = list(ex.map(tlc, runs))
     jobs = []
@@ -144,6 +166,16 @@ def run(ctx):
         ctx.add_tlc(r, label + " (" + cfg + ")")
         if mode == "edge":
             jobs.append((label, nk, vlib.dedup_prefix(r.traces)))
+        elif mode == "edge-tagged":
+            # only edges whose last step is such a Remove are emitted (EmitEdgeTagged); they are
+            # not prefixes of each other. Quick: every L0x/R0x case + 80 others; thorough: all.
+            tc = tag_counts(r.traces)
+            ctx.cov["rebalance_situations_emitted"] = tc
+            if not tc.get("L0x") or not tc.get("R0x"):
+                raise vlib.Inconclusive("VACUOUS", "%s: no Remove reaches a balance-0 heavy child with an opposite-leaning grandchild (%s)" % (cfg, tc))
+            sel = pick_tagged(r.traces, 80 if quick else None, ctx.seed)
+            ctx.cov["rebalance_situations_replayed"] = tag_counts(sel)
+            jobs.append((label, nk, sel))
         elif mode == "sim":
             jobs.append((label, nk, thin_sim(r.traces)))
         ctx.log("TLC %s: %d distinct states, %d transitions, %d behaviours, %.1fs" % (label, r.distinct, r.generated, len(r.traces), r.wall))
